@@ -17,7 +17,7 @@
 From Coq Require Import List Arith Permutation Lia.
 Import ListNotations.
 From BQ Require Import lib.Perm lib.PermThm lib.Trace map.Graph map.GraphThm map.GraphSubThm map.GraphCtorThm
-  map.Sabre map.SabreDag map.SabreThm map.SabreSem map.SabreCoupled map.Placement map.PlacementThm.
+  map.Sabre map.SabreDag map.SabreThm map.SabreSem map.SabreCoupled map.Placement map.PlacementThm map.Pam map.PamThm.
 
 (* ---- lib/Perm ------------------------------------------------------------------ *)
 (* _apply_swap on a permutation pi of 0..n-1 is the value-level transposition of the
@@ -212,6 +212,92 @@ Theorem C09_mappings_same_unitary : forall g c nq,
     mul (prodV M mul one den (imap d) (prog c)) (prodS M mul one sw (swaps_of o))
   /\ fmap d = map (tr_all (swaps_of o)) (imap d).
 Proof. exact pipeline_sem. Qed.
+
+
+(* ---- permutation-aware mapping (PAM): PARTIAL ------------------------------------------------- *)
+(* map/Pam.v: an executed block is replaced by a pre-synthesised triple (pre, circ, post) that
+   _get_best_perm may choose only if perm_data has an entry for the coupling graph induced on
+   the (permuted) physical location; pi is changed by _apply_perm(pre) and _apply_perm(post). *)
+
+(* _apply_perm with a rearrangement of a subset of the indices keeps pi a permutation *)
+Theorem C09_apply_perm_subset : forall n perm pi,
+  wfperm n pi -> NoDup perm -> (forall x, In x perm -> x < n) ->
+  exists pi', apply_perm perm pi = Some pi' /\ wfperm n pi'.
+Proof. exact apply_perm_sub. Qed.
+
+Theorem C09_pam_pi_stays_permutation : forall cg c bars tbl nq,
+  wf_circ c nq -> forall modify tr s s',
+  wfperm nq (ppi s) -> preplay cg c bars tbl modify s tr = Some s' -> wfperm nq (ppi s').
+Proof. exact preplay_wfperm. Qed.
+
+(* For every run of the PAM forward pass that writes the circuit: pi is a permutation; the
+   blocks / barriers of the output are the executed operations in order, without repetition;
+   every block is an ADMISSIBLE triple for the graph induced on the physical qudits it was looked
+   up with and was accepted by _can_exe; every swap is on an edge; at termination every input
+   operation occurs exactly once (only swaps, or permuted versions of the input's own blocks,
+   are added). *)
+Theorem C09_pam_partial : forall cg c bars tbl nq,
+  wf_circ c nq -> forall pi0, wfperm nq pi0 -> forall tr s,
+  preplay cg c bars tbl true (pinit c nq pi0) tr = Some s ->
+  wfperm nq (ppi s) /\ pids (pout s) = pexecuted tr /\ NoDup (pexecuted tr) /\
+  (forall x, In x (pout s) -> padm cg c bars tbl nq x) /\
+  (pF s = [] -> Permutation (pids (pout s)) (seq 0 (length c))).
+Proof. exact pam_run. Qed.
+
+Theorem C09_pam_routing : forall cg c bars tbl nq tr fm o p fm',
+  wf_circ c nq ->
+  pam_routing_pass cg c bars tbl nq tr fm = Some (o, p, fm') ->
+  Graph.is_fully_connected cg = Some true /\ wfperm nq p /\ fm' = compose p fm /\
+  exists s, preplay cg c bars tbl true (pinit c nq (idperm nq)) tr = Some s /\ pF s = [] /\
+            o = pout s /\ p = ppi s.
+Proof. exact pam_routing_pass_spec. Qed.
+
+Theorem C09_pam_layout : forall cg c bars tbl nq trs pl p pl',
+  wf_circ c nq -> length pl = nq -> pam_layout_pass cg c bars tbl nq trs pl = Some (p, pl') ->
+  wfperm nq p /\ pl' = compose pl p.
+Proof. exact pam_layout_pass_spec. Qed.
+
+(* NOT PROVED (full statement).  With the contract of the pre-synthesised triples taken as the
+   definition of a block's semantics (PamThm.blk: bring wire L[pre[j]] to L[j], apply the block,
+   send L[j] to L[post[j]]), and naturality of SWAP and of the wire permutations, the PAM output
+   is the input placed through the initial pi followed by the left-over wire permutations - the
+   analogue of C09_route_same_unitary.  The proved part is C09_pam_partial; this clause is
+   exercised on every run by the exact basis-state oracle of the harness (blocks unfolded). *)
+Definition C09_pam_full : Prop := forall cg c bars tbl nq pi0 tc s,
+  wf_circ c nq -> wfperm nq pi0 ->
+  (forall n, n < length c -> nth n bars false = true -> gfree (opat c n) = true) ->
+  preplay cg c bars tbl true (pinit c nq pi0) tc = Some s -> pF s = [] ->
+  forall (M : Type) (mul : M -> M -> M) (one : M) (den : nat -> list nat -> M) (sw : nat -> nat -> M)
+         (pmove : list nat -> list nat -> M),
+  (forall x y z, mul x (mul y z) = mul (mul x y) z) -> (forall x, mul one x = x) -> (forall x, mul x one = x) ->
+  (forall n1 L1 n2 L2, (forall q, In q L1 -> q < nq) -> (forall q, In q L2 -> q < nq) ->
+     (forall q, In q L1 -> ~ In q L2) -> mul (den n1 L1) (den n2 L2) = mul (den n2 L2) (den n1 L1)) ->
+  (forall a b n L, a < nq -> b < nq -> (forall q, In q L -> q < nq) ->
+     mul (sw a b) (den n L) = mul (den n (map (tr a b) L)) (sw a b)) ->
+  (* naturality of a wire permutation on L by the local permutation r of 0..|L|-1 *)
+  (forall L r n L', NoDup L -> (forall q, In q L -> q < nq) -> wfperm (length L) r -> (forall q, In q L' -> q < nq) ->
+     mul (pmove L r) (den n L') =
+     mul (den n (map (fun x => match Perm.index_of x L with Some j => nth (nth j r 0) L 0 | None => x end) L')) (pmove L r)) ->
+  (forall n, n < length c -> nth n bars false = true -> forall L, den n L = one) ->
+  prodP M mul one den sw pmove (pout s) =
+  mul (prodV M mul one den pi0 (prog c)) (ptail M mul one sw pmove (pout s)).
+
+Definition ex_pcg : adj := [[2];[2];[0;1]].
+Definition ex_pc : circ := [mkop false [0;1;2]; mkop false [0;1]; mkop true [1]].
+Definition ex_ptbl : ptable :=
+  [[mkpt [(0,2);(1,2)] [0;1;2] [0;1;2]; mkpt [(0,2);(1,2)] [0;1;2] [1;0;2]];
+   [mkpt [(0,1)] [0;1] [0;1]; mkpt [(0,1)] [0;1] [1;0]];
+   [mkpt [] [0] [0]]].
+(* a PAM routing run recorded from the implementation (line 0-2-1): two blocks leave their qudits
+   permuted, one swap in between; final pi = [0;2;1] *)
+Example C09_pam_nonvacuous :
+  wf_circ ex_pc 3 /\
+  exists s, preplay ex_pcg ex_pc [false;false;false] ex_ptbl true (pinit ex_pc 3 [0;1;2])
+              [PExec 0 [0;1;2] [1;0;2]; PSwap (1,2); PExec 1 [0;1] [1;0]; PExec 2 [0] [0]] = Some s
+    /\ pF s = [] /\ ppi s = [0;2;1] /\ pids (pout s) = [0;1;2]
+    /\ do_pstep ex_pcg ex_pc [false;false;false] ex_ptbl true (pinit ex_pc 3 [0;1;2]) (PExec 0 [0;1;2] [2;1;0]) = None. (* not in perm_data *)
+Proof. split; [apply wf_circb_ok; reflexivity|].
+  eexists. split; [vm_compute; reflexivity|]. repeat split; reflexivity. Qed.
 
 (* ---- not proved: termination ---------------------------------------------------------------- *)
 (* From every reachable state of a routing run on a connected graph some finite sequence of
